@@ -1,11 +1,32 @@
 import DK.Props.C01
+import DK.Props.C01all
 import DK.Props.C01b
 import DK.Props.C01c
 import DK.Props.C02
+import DK.Props.C03
+import DK.Props.C04
+import DK.Props.C05
+import DK.Props.C06
 import DK.Props.C07
+import DK.Props.C07tree
+import DK.Props.C08
 import DK.Props.C09
+import DK.Props.C10
+import DK.Props.C11
+import DK.Props.C11b
+import DK.Props.C11c
+import DK.Props.C11d
+import DK.Props.C12
+import DK.Props.C13
 import DK.Props.C14
+import DK.Props.C14b
+import DK.Props.C15
+import DK.Props.C16
+import DK.Props.C17
+import DK.Props.C18
+import DK.Props.C19
+import DK.Props.C20
 import DK.Lemmas.Bridge
 /-!
-# All property modules together (checks that the helper-lemma layers do not clash)
+# All property modules together (built by setup_cmd; also checks that the helper-lemma layers do not clash)
 -/
